@@ -257,7 +257,7 @@ class ManualExecutor:
 
     def _advance(self, i, stepping):
         co = self.jobs[i][5]
-        ok = co.advance(stepping, timeout=0.5)
+        ok = co.advance(stepping, timeout=0.1)
         if not ok:
             # blocked (e.g. on a lock held by another paused job): let the others finish, then it must get on
             for k in self.under_way():
